@@ -15,6 +15,11 @@ type Explorer struct {
 	// ShardI/ShardN: this explorer handles the root execution (shard 0 only)
 	// and every ShardN-th first-level subtree.
 	ShardI, ShardN int
+	// Preemption: charge only preemptions (switching away from a thread that
+	// could continue) and non-default select cases; switches at blocking points
+	// are free (CHESS-style iterative context bounding). Default: every
+	// non-default choice costs 1 (deviation bounding).
+	Preemption bool
 	// Stop is polled between executions.
 	Stop func() bool
 
@@ -32,9 +37,12 @@ type Found struct {
 	Choices []int
 }
 
-func cost(p Point, choice int) int {
+func (e *Explorer) cost(p Point, choice int) int {
 	if choice == 0 {
 		return 0
+	}
+	if e.Preemption && !p.CurEnabled && len(p.Enabled) > 0 && p.Enabled[0] >= 0 {
+		return 0 // the running thread cannot continue: any switch is free
 	}
 	return 1
 }
@@ -101,7 +109,7 @@ func (e *Explorer) expand(x *Sched, prefix []int, used0 int, root bool, sp *stac
 		childNo := 0
 		for i := len(prefix); i < len(x.Points); i++ {
 			p := x.Points[i]
-			if u+1 <= e.Bound {
+			if u+e.cost(p, 1) <= e.Bound {
 				for alt := len(p.Enabled) - 1; alt >= 1; alt-- {
 					childNo++
 					if root && e.ShardN > 1 && childNo%e.ShardN != e.ShardI {
@@ -110,10 +118,10 @@ func (e *Explorer) expand(x *Sched, prefix []int, used0 int, root bool, sp *stac
 					np := make([]int, i+1)
 					copy(np, x.Choices[:i])
 					np[i] = alt
-					sp.push(np, u+1)
+					sp.push(np, u+e.cost(p, alt))
 				}
 			}
-			u += cost(p, x.Choices[i])
+			u += e.cost(p, x.Choices[i])
 		}
 	}
 }
